@@ -43,6 +43,10 @@ def run(rec, cfg):
     MR.CHECKS.update({"value", "evaluate-after"})
     MR.attach_apply()
     rng = cfg.rng("c01")
+    from ..workloads import interrupted as _INT
+
+    if cfg.shard == 6 % cfg.nshards:
+        _INT.balanced_move_cases(rec, "C01")
     rules = RC.with_flippers(MR.rule_instances())
     n = cfg.scale(260, 30000)
     if cfg.shard == 5 % cfg.nshards:
@@ -78,6 +82,11 @@ def run(rec, cfg):
 
 
 def replay(rec, cfg, w):
+    if "failpoint" in w:
+        from ..workloads import interrupted as _INT
+
+        _INT.balanced_move_cases(rec, "C01")      # deterministic: the whole family of cases is run again
+        return
     rec.alias = set(getattr(rec, "alias", set()) or set()) | {"C05"}
     MR.CHECKS.update({"value", "evaluate-after"})
     MR.attach_apply()
